@@ -665,6 +665,7 @@ func searchSets(r *lib.Report, family string, depth int, states, trans *int64, s
 
 func main() {
 	r := lib.NewReport("C04")
+	defer r.Guard()
 	lib.WatchHangs(func(d interface{}) {
 		r.Violation("C04|hang", "an operation did not return within 30 s", nil)
 		r.NotExhaustive("stopped at a non-returning operation")
